@@ -287,8 +287,14 @@ func c11Representations(c *core.Ctx, r *core.RNG, ic idCodec) {
 	// text
 	c.Eval(6)
 	txt, err := ic.marshalText(b)
-	if err != nil || txt != hex.EncodeToString(b) {
-		bad("text-marshal", "MarshalText=%q err=%v, want lower-case hex", txt, err)
+	// the text form is hex with an optional 0x; the property does not fix the letter case
+	if err != nil || strings.ToLower(strings.TrimPrefix(strings.TrimPrefix(txt, "0x"), "0X")) != hex.EncodeToString(b) {
+		bad("text-marshal", "MarshalText=%q err=%v, want the value in hex", txt, err)
+	}
+	if err == nil {
+		if got, err := ic.unmarshalText(txt); err != nil || !bytes.Equal(got, b) {
+			bad("text-own-form", "UnmarshalText of the library's own text %q gives %x (%v)", txt, got, err)
+		}
 	}
 	for _, form := range []string{hex.EncodeToString(b), "0x" + hex.EncodeToString(b), strings.ToUpper(hex.EncodeToString(b))} {
 		got, err := ic.unmarshalText(form)
@@ -419,10 +425,16 @@ func c11Representations(c *core.Ctx, r *core.RNG, ic idCodec) {
 			}
 		}
 	}
+	// sources other than the []byte the library itself stores are not the property's business (a driver may
+	// hand over text): they must not panic, and text that is accepted must be the identifier it spells
 	for _, src := range []interface{}{nil, hex.EncodeToString(b), 42, [4]byte{}} {
 		c.Eval(1)
-		if _, err := ic.scan(src); err == nil {
-			bad("scan-non-bytes-accepted", "Scan(%T) accepted", src)
+		var got []byte
+		var err error
+		if p, msg := core.Guard(func() { got, err = ic.scan(src) }); p {
+			bad("scan-panic", "Scan(%T): %s", src, msg)
+		} else if _, isText := src.(string); isText && err == nil && !bytes.Equal(got, b) {
+			bad("scan-text-wrong-value", "Scan(%q) accepted as %x", src, got)
 		}
 	}
 	c.Shape("repr", ic.name)
